@@ -89,11 +89,11 @@ def main():
                     res["checks"][c] = {"exit": r.returncode, "violations": len(viol),
                                         "detail": [x[:300] for x in detail], "wall": round(time.time() - t0, 1)}
                     # replays written against a scratch tree are not kept
-                    rd = os.path.join(VERIF, "replays", c)
-                    if os.path.isdir(rd):
-                        for fn in os.listdir(rd):
-                            if fn.startswith("found_"):
-                                os.remove(os.path.join(rd, fn))
+                    # (only the files this run reported: another run against /repo may be going on)
+                    for l in viol:
+                        fp = l.split("replay=", 1)[-1].strip()
+                        if os.path.basename(fp).startswith("found_") and os.path.exists(fp):
+                            os.remove(fp)
             finally:
                 sh(["git", "-C", "/repo", "worktree", "remove", "--force", wt])
             print(json.dumps(res))
